@@ -315,8 +315,11 @@ class _ResultPusher(mt.Thread):
         task['stderr']       = [t['stderr']       for t in self._cache[uid]]
         task['return_value'] = [t['return_value'] for t in self._cache[uid]]
 
+        # the task failed if any rank failed - also if that rank was killed by
+        # a signal (negative exit code, which sorts below a successful `0`)
         exit_codes           = [t['exit_code']    for t in self._cache[uid]]
-        task['exit_code']    = sorted(list(set(exit_codes)))[-1]
+        failed               = sorted(set(e for e in exit_codes if e))
+        task['exit_code']    = failed[-1] if failed else 0
 
         return True
 
